@@ -34,7 +34,7 @@ def gen_history(g, idx, tier, want_meas=True):
     else:
         n = idx % 5 + 1 if idx < 10 else r.randint(1, 5)
         k = r.choice([1, 1, 2, 3])
-        nsteps = r.choice([1, 2, 3, 4, 5]) if tier == "quick" else r.choice([2, 3, 5, 8])
+        nsteps = r.choice([2, 3, 3, 4, 5]) if tier == "quick" else r.choice([2, 3, 5, 8])
     fold = (idx % 5 == 0)
     if fold:
         n, k, nsteps = r.randint(1, 3), r.choice([1, 2]), r.randint(2, 4)
@@ -70,10 +70,15 @@ def gen_history(g, idx, tier, want_meas=True):
                 G, gv = g.mat(n, n), g.vec(n)
         names = [0, 1, 3, 4] + ([2] if exo else [])
         cmds = []
-        if r.random() < 0.45:
+        u_ = r.random()
+        if u_ < 0.3:
             cmds = [(r.choice(names), r.choice([0, 1])) for _ in range(r.randint(1, 3))]
             if r.random() < 0.5:
                 cmds.append((4, 0))                   # ... netting to nothing
+        elif u_ < 0.55:
+            # one flag alone: only the correction / only the prediction / only the state model skipped, or all
+            # switched off again (a skipped correction after a prediction that ran must hand the predicted belief over)
+            cmds = r.choice([[(3, 1)], [(3, 1)], [(4, 0), (3, 1)], [(0, 1)], [(1, 1)], [(4, 0)], [(4, 0)], [(4, 0), (3, 1)], [(4, 0), (1, 1)], [(3, 0)]])
         hasmeas = want_meas and r.random() < 0.75
         meas = None
         if hasmeas:
@@ -347,6 +352,8 @@ def run_histories(ctx, binary, hists, which):
         corrects = st["meas"] is not None and not sc
         if not corrects:
             stats["corr_skipped" if sc else "corr_no_measurement"] += 1
+            if sc and not (sp or ss):
+                stats["corr_skipped_after_prediction_ran"] = stats.get("corr_skipped_after_prediction_ran", 0) + 1
             if [list(x) for x in cur["corr"][:2]] != [list(x) for x in cur["pred"][:2]] and which == "C01":
                 bad("prop", "uncorrected-step-not-predicted-belief", "no measurement / correction skipped, but the corrected belief is not the predicted belief")
             if [list(x) for x in mo["corr"]] != [list(x) for x in mo["predB"]]:
